@@ -47,17 +47,25 @@ def aligned(s, out, allow_insert=False):
     return False
 
 
-def has_bare_args(soup):
+# the commands whose mandatory arguments the side condition of C08/C16 is about ("the mandatory arguments of \\def,
+# \\textbf, \\section and \\label are brace-delimited"): written down from the property, not read off the code
+SIDE_CONDITION_COMMANDS = ('def', 'textbf', 'section', 'label')
+
+
+def has_bare_args(soup, owners=None):
     """Does the tree contain an argument made up from a bare token or bare command
-    (`'{%s}' % token` / `TexCmd(name)` in an argument list)?  Side condition of C08/C16."""
+    (`'{%s}' % token` / `TexCmd(name)` in an argument list)?  Side condition of C08/C16.
+    The side condition only covers the four commands it names: a made-up argument of ANY OTHER command is not
+    excused (`owners` collects the names of the commands that own one)."""
     from TexSoup import data as D
 
     def walk(e):
         if isinstance(e, D.TexExpr) and not isinstance(e, D.TexText):
             for a in e.args:
-                if isinstance(a, D.TexCmd):
-                    return True
-                if isinstance(a, D.TexGroup) and a.position == -1:
+                if isinstance(a, D.TexCmd) or (isinstance(a, D.TexGroup) and a.position == -1):
+                    if owners is not None:
+                        owners.add(str(e.name))
+                        continue
                     return True
                 if walk(a):
                     return True
@@ -66,6 +74,19 @@ def has_bare_args(soup):
                     return True
         return False
     return walk(soup.expr)
+
+
+def excused_bare_args(soup):
+    """True iff the tree has made-up arguments and ALL of them belong to the commands the side condition names."""
+    owners = set()
+    has_bare_args(soup, owners)
+    return bool(owners) and owners <= set(SIDE_CONDITION_COMMANDS)
+
+
+def unexcused_bare_args(soup):
+    owners = set()
+    has_bare_args(soup, owners)
+    return sorted(owners - set(SIDE_CONDITION_COMMANDS))
 
 
 _POS = re.compile(r'\((t|c \S+|e \S+|m \w+|g \w+) -?\d+')
